@@ -55,7 +55,7 @@ CHECKS = {
             "DESIGN.md section 5 C08"),
     "C19": ("model_checking", "stateless schedule exploration of symbol-set iteration orders per pipeline stage + one real interpreter per PYTHONHASHSEED of a seed cover",
             "For each of 21 scripts (several overlapping parameter names / registers in one argument, parameters in keywords, arrays and variables, tdm, loops, includes on 2-3 modes in non-increasing set order) and each stage (load, dumps, template call, to_DiGraph, match_template, second generation) every combination of iteration orders at every symbol-set iteration reached from blackbird code is executed and must give one observation; the whole menu is also run in fresh interpreters under hash seeds added until every k! order of every name group (as str and as Symbol) has been realised; all must agree. Also: the processes rotate over 5 working directories (two hold other programs under the relative names that file scripts include), import the package before changing directory, go through the menu in a different rotation each, and repeat dumps / instantiation / a refused call on the same objects.",
-            "Two of every seven processes of the seed cover run under -O / -OO and every seventh in the C locale without UTF-8 mode. Observation = canonical content (register lists normalised, function re-paired) + serialised text. Seam in SymPy free_symbols; other set sites are covered only by the real seed cover.",
+            "Two of every seven processes of the seed cover run under -O / -OO, every seventh in the C locale without UTF-8 mode, and three of every seven first change a process-wide setting of the libraries below (warnings filter, NumPy print options); four scripts with out-of-domain function arguments, computed floats, overflowing values and long arrays are compared between all processes through load and dumps. Observation = canonical content (register lists normalised, function re-paired) + serialised text. Seam in SymPy free_symbols; other set sites are covered only by the real seed cover.",
             "DESIGN.md section 5 C19"),
     "C09": ("exploration", "bounded-exhaustive enumeration of API-built programs over a value alphabet (kind x edge value x position) with serialise/re-load differential",
             "Programs are assembled through the Python API from a value alphabet of about 150 values (every supported kind, edge values such as negative zero, subnormals, 1e+-300, int64 extremes, overlapping parameter names) in every position (positional, keyword, target option, type option), all ordered pairs, lists x lists, mode lists as ints and np.int64, with/without args keys, pairs of arrays x metadata variants (hoisting/numbering). dumps must succeed, the text must load, and the result must be equivalent (arrays bit-exact incl. sign of zero). Also: 342 near-special floats and 32 strings (other line-boundary characters, tabs, backslashes, non-ASCII, token look-alikes) singly in every position; non-contiguous and same-image-different-dtype arrays; the full target x type grid for programs with arrays; dump()/load() of one working file per worker.",
